@@ -49,10 +49,15 @@ macro_rules! harnesses {
 }
 
 pub mod selftest;
+pub mod oracle;
 pub mod c08;
+pub mod c09;
+pub mod c13;
 
 pub fn all_harnesses() -> Vec<&'static Harness> {
     let mut v: Vec<&'static Harness> = Vec::new();
     v.extend(c08::HARNESSES.iter());
+    v.extend(c09::HARNESSES.iter());
+    v.extend(c13::HARNESSES.iter());
     v
 }
